@@ -66,8 +66,10 @@ impl PatProp for Limits {
             }
         }
         let prog_len = engine::program_shape(pat).map(|(_, k)| k.len() as u64).unwrap_or(64);
-        // the reference is only consulted for "tiny exploration => no limit error"; the disputed classes are left out of that part
-        let reference = if known_class(ctx, n).is_none() && n.refs_valid(false) && !n.has_f1() { Some(refm::compile(n)) } else { None };
+        // the reference is only consulted for the SIZE of its exploration ("tiny exploration => no limit
+        // error"), never for its answer, so the classes with disputed semantics (F1, F4, F14) stay in
+        let _ = (ctx, known_class);
+        let reference = Some(refm::compile(n));
         if reference.is_some() {
             st.class("oracle:reference-available");
         }
@@ -124,6 +126,26 @@ impl PatProp for Limits {
                 return Verdict::Fail(f);
             }
         }
+        // the other entry points run the same search: same threshold
+        if pos == 0 {
+            for (l, re) in p.limited.iter().filter(|(l, _)| [0usize, 2, 10].contains(l)) {
+                let im = engine::guard(|| re.is_match(t));
+                let want_im: Out<bool> = if (*l as u64) < b { Out::Err("BacktrackLimitExceeded".into()) } else { Out::Val(matches!(base, Out::Val(Some(_)))) };
+                if im != want_im {
+                    return Verdict::Fail(Fail::new("limit-threshold-is_match", format!("limit {} with {} backtracks needed: {}", l, b, want_im.show()), im.show()));
+                }
+                let cc = engine::captures_from_pos(re, t, 0);
+                let cc0: Out<refm::Span> = match cc {
+                    Out::Val(v) => Out::Val(v.and_then(|v| v[0])),
+                    Out::Err(e) => Out::Err(e),
+                    Out::Panic(x) => Out::Panic(x),
+                };
+                let want_c = if (*l as u64) < b { &lim_err } else { &base };
+                if &cc0 != want_c {
+                    return Verdict::Fail(Fail::new("limit-threshold-captures", format!("limit {} with {} backtracks needed: {}", l, b, want_c.show()), cc0.show()));
+                }
+            }
+        }
         // exact threshold for counts that are not next to one of the fixed limits
         if b >= 12 && pos == 0 && t.len() % 2 == 0 {
             for l in [b - 1, b, b + 1] {
@@ -143,7 +165,7 @@ impl PatProp for Limits {
 pub fn run(ctx: &RunCtx) -> Outcome {
     let p = Limits { only_pos0: false };
     let mut o = Outcome::default();
-    o.rule = "VM-compiled patterns of the unrestricted space (exhaustive trees, context x filler products with conditionals, proptest random ASTs) x texts x offsets. Per case the unlimited search is run once and its statistics read through the hook (backtracks B, pushes, peak branch stack, instructions): (ii) for every limit L in {0,1,2,3,5,10,100,10^6} (and B-1, B, B+1 for larger B) the search under backtrack_limit(L) returns exactly Err(BacktrackLimitExceeded) if L < B and exactly the unlimited answer otherwise; (iii) with default limits a runtime error is only accepted if the reference exploration of the same case is not tiny (> 10^4 steps); (iv) peak stack <= 10^6 and instructions <= (pushes + B + 1) x |program| x counted-repeat factor x (len+2). Non-trivial = B >= 1 and limits on both sides of the threshold were exercised. Distinct = distinct (pattern, text, offset).".into();
+    o.rule = "VM-compiled patterns of the unrestricted space (exhaustive trees, context x filler products with conditionals, proptest random ASTs) x texts x offsets. Per case the unlimited search is run once and its statistics read through the hook (backtracks B, pushes, peak branch stack, instructions): (ii) for every limit L in {0,1,2,3,5,10,100,10^6} (and B-1, B, B+1 for larger B) the search under backtrack_limit(L) returns exactly Err(BacktrackLimitExceeded) if L < B and exactly the unlimited answer otherwise (find_from_pos at every offset; is_match and captures at offset 0 for L in {0,2,10}); (iii) with default limits a runtime error is only accepted if the reference exploration of the same case is not tiny (> 10^4 steps); (iv) peak stack <= 10^6 and instructions <= (pushes + B + 1) x |program| x counted-repeat factor x (len+2). Non-trivial = B >= 1 and limits on both sides of the threshold were exercised. Distinct = distinct (pattern, text, offset).".into();
     o.assumptions = vec!["hook statistics are those of the single vm::run behind find_from_pos".into(), "wall clock is only a watchdog".into()];
     o.required_classes = vec!["backtracks:1..11".into(), "backtracks:>=12".into(), "oracle:reference-available".into()];
     let quick = ctx.quick();
